@@ -59,6 +59,7 @@ class FnSpec:
     slice_to: str = None
     slice_sig: str = None
     slice_tail: str = None
+    slice_within: str = None  # optional: slice-from is searched after the first occurrence of this anchor (e.g. a match-arm header)
     rename: str = None
     body_only: bool = False
     no_smoke: bool = False
@@ -103,6 +104,8 @@ def parse_vspec(path):
             cur.slice_to = line[9:].strip().strip('"'); continue
         if line.startswith("slice-sig "):
             cur.slice_sig = line[10:].strip(); continue
+        if line.startswith("slice-within "):
+            cur.slice_within = line[13:].strip().strip('"'); continue
         if line.startswith("slice-tail "):
             cur.slice_tail = line[11:].strip(); continue
         m = re.match(r"^loop\s+(\d+)$", line)
@@ -531,7 +534,12 @@ class Unit:
 
     def _slice(self, text, sp, fnkey):
         """R11: wrap the statement range [slice_from, slice_to) of the function body as a synthesized fn."""
-        a = text.find(sp.slice_from)
+        w = 0
+        if sp.slice_within:
+            w = text.find(sp.slice_within)
+            if w < 0:
+                raise X.Undecided(f"lost anchor: slice-within {sp.slice_within!r} not found in {fnkey}")
+        a = text.find(sp.slice_from, w)
         if a < 0:
             raise X.Undecided(f"lost anchor: slice-from {sp.slice_from!r} not found in {fnkey}")
         a = self._stmt_start(text, a)
@@ -545,6 +553,17 @@ class Unit:
             _, _, bo = _find_body_open(st)
             b = st[match_close(st, bo)].start
         self._log("R11-slice-fn", fnkey, 1, f"kept statements between {sp.slice_from!r} and {sp.slice_to!r}")
+        # a slice-to anchor that lies beyond the block holding slice-from (e.g. the next match arm): the slice ends where
+        # that block ends, i.e. before the first closing delimiter that has no opener inside the slice
+        depth = 0
+        for t in sig(lex(text[a:b])):
+            if t.kind == "punct" and t.text in ("{", "(", "["):
+                depth += 1
+            elif t.kind == "punct" and t.text in ("}", ")", "]"):
+                depth -= 1
+                if depth < 0:
+                    b = a + t.start
+                    break
         return sp.slice_sig + " {\n" + text[a:b] + "\n" + (sp.slice_tail or "") + "\n}"
 
     @staticmethod
